@@ -46,9 +46,9 @@ def monitor_cfg(ctx, sys_, kd):
     return "T_Residency", cfg
 
 
-def judge_trace(ctx, sys_, trace, source, kd, classify=True):
+def judge_trace(ctx, sys_, trace, source, kd, classify=True, max_events=60000):
     mod, cfg = monitor_cfg(ctx, sys_, kd)
-    v = lib.judge(ctx, mod, cfg, trace, max_events=60000)
+    v = lib.judge(ctx, mod, cfg, trace, max_events=max_events)
     ctx.stage("judge", source=source, events=v["events"], violations=len(v["violations"]),
               deviations=len(v["deviations"]), wall_s=v["wall_s"])
     if classify:
@@ -118,16 +118,15 @@ def generated(ctx, sys_, label, r, progs, kd, keep=False):
 
 
 def design_checks(ctx, kd):
-    """The ideal design refines the property with no deviation; each known code defect, put into the code-shaped
-    model alone and without its deviation, is refuted by TLC (the finding's model-level witness)."""
+    """The ideal design refines the property with no deviation; each code defect found so far (known or fixed), put
+    into the code-shaped model alone and without its deviation, is refuted by TLC (the finding's model-level witness)."""
     r, _ = mc_index(ctx, "lean", 3, [], [], pre="boundary", emit=False)
     r2, _ = mc_index(ctx, "zero", 4, [], [], emit=False)
     ctx.cov["states"] += r["distinct"] + r2["distinct"]
     ctx.cov["transitions"] += r["generated"] + r2["generated"]
     res = {"ideal_design_refines": True}
+    # done for fixed findings too: it shows the specification would refute the defect if it came back
     for fid, alpha, depth in (("F05a", "lean", 3), ("F05b", "zero", 4)):
-        if fid not in kd:
-            continue
         rv, _ = mc_index(ctx, alpha, depth, [], [fid], emit=False, expect_violation=True)
         res[f"model_witness_{fid}"] = "Refines" in rv["invariant_violated"]
         if not res[f"model_witness_{fid}"]:
@@ -137,15 +136,16 @@ def design_checks(ctx, kd):
 
 
 # --------------------------------------------------------------------------- random tier
-def random_tier(ctx, sys_, args, label, kd):
-    trace = ctx.path(f"trace_random_{sys_}.ndjson")
-    dump = ctx.path(f"prog_random_{sys_}.ndjson")
+def random_tier(ctx, sys_, args, label, kd, max_events=8000):
+    tag = label.split()[1]
+    trace = ctx.path(f"trace_random_{tag}.ndjson")
+    dump = ctx.path(f"prog_random_{tag}.ndjson")
     d = lib.run_driver("drv_index", args + ["--out", trace, "--dump-programs", dump], env={"VERIF_SEED": ctx.seed})
     ctx.stage("run", source=label, programs=d.get("programs"), events=d.get("events"), hangs=d.get("hangs"), wall_s=d["wall_s"])
     n, dn = lib.count_distinct(dump)
     ctx.cov["traces_validated_against_impl"] += n
     ctx.cov["distinct_nontrivial"] += dn
-    judge_trace(ctx, sys_, trace, label, kd)
+    judge_trace(ctx, sys_, trace, label, kd, max_events=max_events)
     op_census(ctx, trace)
     os.remove(trace)
     os.remove(dump)
@@ -237,6 +237,7 @@ def run(ctx):
                 ("two", "none", 3), ("two", "boundary", 2), ("zero", "none", 4), ("zero", "sorted", 3)]
         res_plan = [("none", 3), ("saved", 3)]
         rnd_index = ["--random-index", 40, "--len", 300, "--long", 4, "--long-len", 3000]
+        rnd_big = ["--big", 3]
         rnd_res = ["--random-res", 64, "--len", 300]
     else:
         plan = [("full", "none", 4), ("full", "sorted", 3), ("full", "boundary", 3), ("lean", "none", 5), ("lean", "sorted", 4),
@@ -244,6 +245,7 @@ def run(ctx):
                 ("zero", "none", 5), ("zero", "sorted", 4)]
         res_plan = [("none", 4), ("saved", 4)]
         rnd_index = ["--random-index", 300, "--len", 300, "--long", 40, "--long-len", 3000]
+        rnd_big = ["--big", 16]
         rnd_res = ["--random-res", 400, "--len", 400]
     design_checks(ctx, kd)
     first = True
@@ -264,6 +266,8 @@ def run(ctx):
             os.remove(trace)
             first = False
     random_tier(ctx, "index", rnd_index, f"random index seed={ctx.seed}", kd)
+    # sorted sections around the 64 KiB boundary at which the file's update section is aligned; one chunk per program
+    random_tier(ctx, "index", rnd_big, f"random bigindex seed={ctx.seed}", kd, max_events=1)
     random_tier(ctx, "res", rnd_res, f"random residency seed={ctx.seed}", kd)
     ctx.cov["evaluations"] = ctx.cov["traces_validated_against_impl"]
     ctx.cov["exhaustive"] = True
